@@ -680,6 +680,31 @@ package termincommittee
 //@   assert before call ExtractPreparedMessages [O9.1.extracts-the-certificate-of-the-locked-view] $latestPreparedView == tic.preparedLocally.latestView && $blockHeight == tic.State.height && $committeeMembers == tic.committeeMembers && $storage == tic.storage
 //@   assert before call CreateViewChangeMessage [O9.1.vote-carries-what-was-extracted] (tic.preparedLocally != nil && tic.preparedLocally.isPreparedLocally) || $preparedMessages == nil
 
+// what starting a term may write: the view, the context registry, the proposal / send log (never the commit bookkeeping)
+//@ modset TICSTART = state.State.view, M:S_state_HeightView:Int, termincommittee.TermInCommittee.preparedLocally, ghost:ppStored, ghost:ppHash, ghost:sentPrepare, ghost:sentPrepareHash, ghost:sentCommit, ghost:sentCommitHash, ghost:proposed, ghost:lastCtxErrNil
+
+// The constructor establishes TicOK, which every handler relies on: the configured SPI objects are present, the committee
+// has at least four members whose weight fits 64 bits and contains this node, the factory signs as this node with the
+// term's key manager. The fields TicOK mentions are written nowhere else (structural obligation field-writers), so it is
+// an invariant of the object. The ghost log (proposals accepted, messages sent, commits) describes one term; that it is
+// empty when the term object is created is a modelling convention (entry-assume), not a fact about code.
+//@ func NewTermInCommittee
+//@   assert before call startTerm [hint.the-new-term-shares-the-node-state] $tic.State == state && state.view >= 0 && $tic.latestViewThatProcessedVCMOrNVM == 0
+//@   props C12 C08 C10 C11
+//@   safety iface
+//@   requires [A-NONNIL.the-configured-spi-objects-are-present] config != nil && config.KeyManager != nil && config.BlockUtils != nil && config.Membership != nil && state != nil && messageFactory != nil && electionTrigger != nil
+//@   requires [committee.at-least-the-hard-minimum] len(committeeMembers) >= 4
+//@   requires [committee.weight-fits-64-bits] SumMW(committeeMembers, len(committeeMembers)) < 2^64
+//@   requires [committee.this-node-is-a-member] IsMember(committeeMembers, config.Membership.MyMemberId())
+//@   requires [factory.signs-as-this-node-with-the-term-key-manager] messageFactory.memberId == config.Membership.MyMemberId() && messageFactory.keyManager == config.KeyManager && SignsAs(config.KeyManager, config.Membership.MyMemberId())
+//@   requires [O13.earlier-commits-are-below-the-new-height] lastCommitHeight < state.height
+//@   entry-assume [A-GHOST.a-new-term-starts-with-an-empty-ghost-log] ncommitted == 0 && lastVC < 0 && (forall gv int :: !ppStored[gv] && !proposed[gv] && !sentPrepare[gv] && !sentCommit[gv])
+//@   modifies @TICSTART, interfaces.Config.Storage, ghost:ncommitted, ghost:lastVC
+//@   ensures [the-term-is-well-formed] result != nil && TicOK(result)
+//@   ensures [wired-to-what-was-handed-in] result.State == state && result.keyManager == config.KeyManager && result.messageFactory == messageFactory && result.blockUtils == config.BlockUtils && result.electionTrigger == electionTrigger && result.myMemberId == config.Membership.MyMemberId()
+//@   ensures [committee-kept] len(result.committeeMembers) == len(committeeMembers) && (forall ck :: 0 <= ck && ck < len(committeeMembers) ==> result.committeeMembers[ck].Id == committeeMembers[ck].Id && result.committeeMembers[ck].Weight == committeeMembers[ck].Weight)
+//@   ensures [height-untouched] state.height == old(state.height)
+
 //@ func (*TermInCommittee).startTerm
 //@   assert before call For [O15.7.proposal-requested-under-the-context-of-its-own-view] $hv.height == tic.State.height && $hv.view == 0
 //@   props C10 C14 C15 C12
@@ -687,6 +712,6 @@ package termincommittee
 //@   requires TicOK(tic)
 //@   inv GhostInv(tic)
 //@   requires [fresh-term] ncommitted == 0 && lastVC < 0 && (forall gv int :: !ppStored[gv] && !proposed[gv] && !sentPrepare[gv] && !sentCommit[gv])
-//@   modifies @TIC
+//@   modifies @TICSTART
 //@   assert before call sendConsensusMessage [O14.3.first-leader-only-if-allowed] tic.State.height <= 1 || canBeFirstLeader
 //@   assert before call sendConsensusMessage [O15.6.context-observed-live-after-the-proposal-request] lastCtxErrNil
